@@ -226,6 +226,14 @@ class Feasible(Monitor):
             return ('negative-volume', vol)
         if vol > w['cap'] + g + 2e-12 * w['cap'] if not math.isinf(w['cap']) else False:
             return ('over-capacity', {'vol': vol, 'cap': w['cap']})
+        if not math.isinf(w['cap']):
+            # what the contents really need (reference volumes), not only what the vessel reports
+            base = world.base(w)
+            need = world.ref.volume_storage(base)
+            tol = sum(2 * world.ref.grain_base(n) * abs(world.ref.subs[n].factor('L')) for n in base) / world.cfg.vol_mult \
+                + (len(base) + 2) * g + 1e-9 * w['cap']
+            if need > w['cap'] + tol:
+                return ('contents-exceed-capacity', {'needed': need, 'reported': vol, 'cap': w['cap']})
         return None
 
 
